@@ -76,6 +76,13 @@ def main():
         jobs["-tags verif"] = ex.submit(run_checker, pid, repo, ["-tags", "verif"], os.path.join(tmp_ev, "verif"))
         jobs["main"] = ex.submit(run_checker, pid, repo, [], evdir)
         muts = sorted(glob.glob(os.path.join(VERIF, "selftest", pid, "mutants", "*.patch")))
+        # independently written breaking changes (sub-agents) for this property
+        for meta_p in sorted(glob.glob(os.path.join(VERIF, "seeded", "*", "meta.json"))):
+            try:
+                if json.load(open(meta_p)).get("property") == pid:
+                    muts.append(os.path.join(os.path.dirname(meta_p), "patch.diff"))
+            except Exception:
+                pass
         bens = sorted(glob.glob(os.path.join(VERIF, "selftest", pid, "benign", "*.patch")))
         for m in muts + bens:
             jobs[m] = ex.submit(scratch_run, pid, repo, m)
@@ -111,6 +118,8 @@ def main():
     for m in muts:
         rc, out = results[m]
         name = os.path.basename(m)
+        if name == "patch.diff":
+            name = "seeded/" + os.path.basename(os.path.dirname(m))
         exp_file = m[:-6] + ".expect"
         expect = open(exp_file).read().split() if os.path.exists(exp_file) else []
         if rc is None:
